@@ -266,7 +266,7 @@ func (root *Root) addTypes(types ...Type) error {
 	return root.ReplaceRefs()
 }
 
-func (root *Root) addExtends(extends ...*Extend) (err error) {
+func (root *Root) addExtends(extends ...*Extend) (undo []func(), err error) {
 	for _, x := range extends {
 		if err = root.replaceTypeRefs(x.Adds); err != nil {
 			return
@@ -281,16 +281,70 @@ func (root *Root) addExtends(extends ...*Extend) (err error) {
 			cur = root.schema
 		}
 		if cur == nil {
-			return fmt.Errorf("%s can not be extended because it was %w", x.Adds.Name(), ErrNotFound)
+			return undo, fmt.Errorf("%s can not be extended because it was %w", x.Adds.Name(), ErrNotFound)
 		}
 		if reflect.TypeOf(x.Adds) != reflect.TypeOf(cur) {
-			return fmt.Errorf("%w: %s, a %T can not extend a %T", ErrTypeMismatch, x.Adds.Name(), x.Adds, cur)
+			return undo, fmt.Errorf("%w: %s, a %T can not extend a %T", ErrTypeMismatch, x.Adds.Name(), x.Adds, cur)
 		}
+		undo = append(undo, extendUndo(cur))
 		if err = cur.Extend(x.Adds); err != nil {
 			return
 		}
 	}
-	return nil
+	return
+}
+
+// extendUndo returns a function that puts an extendable type back as it is
+// now.
+func extendUndo(t Type) func() {
+	cutFields := func(fl *fieldList) func() {
+		n := len(fl.list)
+		return func() {
+			for _, f := range fl.list[n:] {
+				delete(fl.dict, f.N)
+			}
+			fl.list = fl.list[:n]
+		}
+	}
+	switch tt := t.(type) {
+	case *Schema:
+		fields, dirs := cutFields(&tt.fields), tt.Dirs
+		return func() { fields(); tt.Dirs = dirs }
+	case *Object:
+		fields, infs, dirs := cutFields(&tt.fields), tt.Interfaces, tt.Dirs
+		return func() { fields(); tt.Interfaces = infs; tt.Dirs = dirs }
+	case *Interface:
+		fields, dirs := cutFields(&tt.fields), tt.Dirs
+		return func() { fields(); tt.Dirs = dirs }
+	case *Union:
+		members, dirs := tt.Members, tt.Dirs
+		return func() { tt.Members = members; tt.Dirs = dirs }
+	case *Enum:
+		n, dirs := len(tt.values.list), tt.Dirs
+		return func() {
+			for _, ev := range tt.values.list[n:] {
+				delete(tt.values.dict, string(ev.Value))
+			}
+			tt.values.list = tt.values.list[:n]
+			tt.Dirs = dirs
+		}
+	case *Input:
+		n, dirs := len(tt.fields.list), tt.Dirs
+		return func() {
+			for _, f := range tt.fields.list[n:] {
+				delete(tt.fields.dict, f.N)
+			}
+			tt.fields.list = tt.fields.list[:n]
+			tt.Dirs = dirs
+		}
+	case *stringScalar:
+		dirs := tt.Dirs
+		return func() { tt.Dirs = dirs }
+	case *Scalar:
+		dirs := tt.Dirs
+		return func() { tt.Dirs = dirs }
+	}
+	return func() {}
 }
 
 // GetType returns the type that matches the provided name or nil if none
@@ -333,8 +387,9 @@ func (root *Root) ParseReader(r io.Reader) error {
 	if err == nil {
 		err = root.addTypes(types...)
 	}
+	var undo []func()
 	if err == nil {
-		err = root.addExtends(extends...)
+		undo, err = root.addExtends(extends...)
 	}
 	if err == nil {
 		if derived && root.schema == origSchema {
@@ -347,6 +402,11 @@ func (root *Root) ParseReader(r io.Reader) error {
 		err = root.validate()
 	}
 	if err != nil {
+		// Types that were already in the root are shared with the saved
+		// tables so what was added to them has to be taken back.
+		for i := len(undo) - 1; 0 <= i; i-- {
+			undo[i]()
+		}
 		root.types = origTypes
 		root.dirs = origDirs
 		root.schema = origSchema
